@@ -25,13 +25,16 @@ pub fn sign(case: &Value, reg: &Registry) -> Value {
                     .build())
             }
             "builder" => {
-                let meta: MetadataWrapper = serde_json::from_value(signed)?;
+                let meta: MetadataWrapper =
+                    serde_json::from_str(&serde_json::to_string(&signed)?)?;
                 Ok(MetablockBuilder::from_metadata(meta.into_trait())
                     .sign(&signers)?
                     .build())
             }
             _ => {
-                let meta: MetadataWrapper = serde_json::from_value(signed)?;
+                // text channel on purpose: channel (in)dependence is C17's subject
+                let meta: MetadataWrapper =
+                    serde_json::from_str(&serde_json::to_string(&signed)?)?;
                 Metablock::new(meta, &signers)
             }
         }
@@ -61,7 +64,7 @@ fn parse_keys(v: &Value) -> Result<Vec<PublicKey>, String> {
     let mut res = Vec::new();
     for k in v.as_array().map(|a| a.as_slice()).unwrap_or(&[]) {
         res.push(
-            serde_json::from_value::<PublicKey>(k.clone())
+            crate::util::via_text::<PublicKey>(k)
                 .map_err(|e| e.to_string())?,
         );
     }
@@ -124,11 +127,11 @@ pub fn rawsig(case: &Value, reg: &Registry) -> Value {
 /// {pub: pubjson, msg: hex|text, sig: {keyid, sig}}
 pub fn rawverify(case: &Value) -> Value {
     let msg = bytes_of(&case["msg"]);
-    let k = match serde_json::from_value::<PublicKey>(case["pub"].clone()) {
+    let k = match crate::util::via_text::<PublicKey>(&case["pub"]) {
         Ok(k) => k,
         Err(e) => return json!({"key_err": e.to_string()}),
     };
-    let s = match serde_json::from_value::<Signature>(case["sig"].clone()) {
+    let s = match crate::util::via_text::<Signature>(&case["sig"]) {
         Ok(s) => s,
         Err(e) => return json!({"sig_err": e.to_string()}),
     };
